@@ -294,7 +294,17 @@ def single_extract(ctx, ev):
 
 
 def _with_guards(effects, guards=()):
+    """Yield (effect, guards) where guards are the enclosing eff:if conditions plus the eff:assume facts that
+    precede the effect in its sequence."""
+    guards = tuple(guards)
     for e in effects:
+        if isinstance(e, App) and e.op == "eff:assume":
+            c = e.args[0]
+            pol = True
+            while isinstance(c, App) and c.op == "not":
+                c, pol = c.args[0], not pol
+            guards = guards + ((c, pol),)
+            continue
         if isinstance(e, App) and e.op == "eff:if":
             yield from _with_guards(e.args[1].args, guards + ((e.args[0], True),))
             yield from _with_guards(e.args[2].args, guards + ((e.args[0], False),))
